@@ -56,6 +56,7 @@ func vhRaceMint(withWatcher bool, preempt int) {
 	v.Assume(o1[0].B_ != o2[0].B_)
 	var ok1, ok2 bool
 	v.Go(func() { _, err := m.MintTokens(nut04.PostMintBolt11Request{Quote: q.Id, Outputs: o1}); ok1 = err == nil })
+	env.ln.WatcherLive = withWatcher
 	if withWatcher {
 		// the real background watcher (invoicesub.go): subscription reports the invoice settled (or closes)
 		v.Go(func() { m.checkInvoicePaid(m.ctx, q.Id) })
